@@ -62,6 +62,7 @@ class Monitor:
         self.released_pk = collections_counter()
         self.ring_ok = getattr(jb, "_packets", MISSING) is not MISSING
         self.pad_by_seq = {}
+        self.expect_release = False
 
     def ring(self):
         ring = getattr(self.jb, "_packets", MISSING)
@@ -102,6 +103,24 @@ class Monitor:
         if frame is not None:
             self.check_frame(frame, aid)
             released = self.last_released_seqs
+        elif self.expect_release and self.ring_ok and self.jb._origin is not None and self.jb._packets[pk.seq % self.jb.capacity] is packet:
+            # (only when this arrival was stored: an ignored late duplicate triggers no scan, the backlog comes out with the next one)
+            # complete, slightly displaced stream: a frame outside the trailing prefetch window that is whole in the buffer and
+            # followed by the start of enough later frames must come out now - if the stream ended here it never would
+            changes, ts, n = 0, None, 0
+            cap = self.jb.capacity
+            for k in range(cap):
+                q = self.jb._packets[(self.jb._origin + k) % cap]
+                if q is None:
+                    break
+                if ts is not None and q.timestamp != ts:
+                    changes += 1
+                ts = q.timestamp
+                n += 1
+            out.counters["release_obligations_checked"] += 1
+            if changes >= max(self.jb._prefetch, 1):
+                out.fail("release-missed", f"arrival #{aid} seq={pk.seq}: {n} consecutive packets from the origin span {changes + 1} timestamps "
+                         f"(prefetch {self.jb._prefetch}), yet add() released nothing", self.desc)
         if before is not None:
             after = self.ring()
             if len(after) > self.jb.capacity or sum(1 for p in self.jb._packets if p is not None) > self.jb.capacity \
@@ -314,6 +333,7 @@ def run_history(rng, out, capacity, prefetch, is_video, arr, pks, sizes, feats):
             "arrivals": [(p.seq, p.ts) for p in arr[:40]], "n_arrivals": len(arr), "frame_sizes": sizes[:20]}
     jb = JitterBuffer(capacity=capacity, prefetch=prefetch, is_video=is_video)
     mon = Monitor(jb, is_video, out, desc)
+    mon.expect_release = bool(feats.get("benign")) and hasattr(jb, "_prefetch") and not feats.get("first_arrival_abs")
     for p in arr:
         if mon.add(p) == "raised":
             break
